@@ -78,7 +78,7 @@ func (i *interpreter) mapFind(m *smap, k value) *mapEntry {
 		if e.dead {
 			continue
 		}
-		eq := i.eqTerm(m.keyT, e.key, k)
+		eq := i.simp(i.eqTerm(m.keyT, e.key, k))
 		if eq.IsConst() {
 			if eq.C == 1 {
 				return e
@@ -129,8 +129,14 @@ func (i *interpreter) mapLookupIte(m *smap, k value, elemT types.Type) (value, v
 	live := m.live()
 	for j := len(live) - 1; j >= 0; j-- {
 		e := live[j]
-		eq := i.eqTerm(m.keyT, e.key, k)
+		eq := i.simp(i.eqTerm(m.keyT, e.key, k))
 		if eq == s.False {
+			continue
+		}
+		if eq == s.True {
+			// decided by the path condition: keys are pairwise distinct, so this is the entry
+			vt = i.term(e.val)
+			okt = s.True
 			continue
 		}
 		vt = s.Ite(eq, i.term(e.val), vt)
